@@ -117,16 +117,18 @@ def objJ (id : Nat) (o : Obj) : Json :=
 open SparseV.Own in
 def cfgJ (c : Cfg) : Json :=
   Json.mkObj [("holdInputs", Json.bool c.holdInputs), ("holdViewOwning", Json.bool c.holdViewOwning),
-              ("holdViewNonOwning", Json.bool c.holdViewNonOwning), ("fromArraysOwns", Json.bool c.fromArraysOwns)]
+              ("holdViewNonOwning", Json.bool c.holdViewNonOwning), ("fromArraysOwns", Json.bool c.fromArraysOwns),
+              ("holdOnBaseRoot", Json.bool c.holdOnBaseRoot)]
 
 open SparseV.Own in
-/-- `"code"` = the configuration read off the source (`Cfg.code`), or an object with the four flags -/
+/-- `"code"` = the configuration read off the source (`Cfg.code`), or an object with the five flags -/
 def jCfg (j : Json) : R Cfg := do
   match j with
   | Json.str "code" => pure Cfg.code
   | Json.str "full" => pure Cfg.full
   | _ => pure { holdInputs := ← jBool (← jField j "holdInputs"), holdViewOwning := ← jBool (← jField j "holdViewOwning"),
-                holdViewNonOwning := ← jBool (← jField j "holdViewNonOwning"), fromArraysOwns := ← jBool (← jField j "fromArraysOwns") }
+                holdViewNonOwning := ← jBool (← jField j "holdViewNonOwning"), fromArraysOwns := ← jBool (← jField j "fromArraysOwns"),
+                holdOnBaseRoot := ← jBool (← jField j "holdOnBaseRoot") }
 
 open SparseV.Own in
 /-- run a script; `["collect"]` finalises every unreachable object (oldest first), as CPython's
